@@ -173,6 +173,7 @@ class CSSVariablesRule(cssrule.CSSRule):
             newVariables.cssText = variablestokens
 
             if ok:
+                self.atkeyword = self._tokenvalue(attoken)
                 # contains probably comments only upto {
                 self._setSeq(newseq)
                 self.variables = newVariables
